@@ -38,12 +38,71 @@ def _al(obj, alias):
     return obj if alias is None else obj.as_(alias)
 
 
-def build(t):
+_PY_ARITH = {"add": "__add__", "sub": "__sub__", "mul": "__mul__", "div": "__truediv__", "lshift": "__lshift__", "rshift": "__rshift__"}
+_PY_EQ = {"eq": "__eq__", "ne": "__ne__", "gt": "__gt__", "gte": "__ge__", "lt": "__lt__", "lte": "__le__"}
+_PY_BOOL = {"and": "__and__", "or": "__or__", "xor": "__xor__"}
+
+
+def _build_ops(t):
+    """The same tree written the way a user writes it: Python operators and the Term methods (`a + b`, `a == b`, `p & q`,
+    `~p`, `-a`, `x.isin(..)`, `x.notin(..)`, `x.between(..)`, `x.isnull()` ...).  On the unchanged tree every one of these is
+    a thin wrapper around the constructor form, so both forms must render the same text; a change that makes an operator
+    or method do something else than the constructor (e.g. an `__invert__` override) is seen by the correspondence check.
+    Returns None where no operator form exists (the caller falls back to the constructors)."""
+    import pypika.terms as T
+    k = t[0]
+    b = lambda x: build(x, ops=True)   # noqa: E731
+
+    def plain(o, name):   # the operator is Term's own (QueryBuilder.__eq__, Interval.__add__ ... mean something else)
+        return getattr(type(o), name, None) is getattr(T.Term, name)
+    if k == "neg":
+        return -b(t[1])
+    if k == "arith" and t[1] in _PY_ARITH:
+        l = b(t[2])
+        return _al(getattr(l, _PY_ARITH[t[1]])(b(t[3])), t[4]) if plain(l, _PY_ARITH[t[1]]) else None
+    if k == "basic":
+        l, r = b(t[2]), b(t[3])
+        if t[1] in _PY_EQ:
+            return _al(getattr(l, _PY_EQ[t[1]])(r), t[4]) if plain(l, _PY_EQ[t[1]]) else None
+        if hasattr(T.Term, t[1]):
+            return _al(getattr(l, t[1])(r), t[4])
+        return None
+    if k == "cplx" and t[1] in _PY_BOOL:
+        l, r = b(t[2]), b(t[3])
+        if not isinstance(l, T.Criterion) or isinstance(l, T.EmptyCriterion) or isinstance(r, T.EmptyCriterion):
+            return None
+        return _al(getattr(l, _PY_BOOL[t[1]])(r), t[4])
+    if k == "in":
+        l, r = b(t[1]), b(t[2])
+        return _al(l.notin(r) if t[3] else l.isin(r), t[4])
+    if k == "between":
+        return _al(b(t[1]).between(b(t[2]), b(t[3])), t[4])
+    if k == "bitand":
+        return _al(b(t[1]).bitwiseand(int(t[2])), t[3])
+    if k == "isnull":
+        return _al(b(t[1]).isnull(), t[2])
+    if k == "notnull":
+        return _al(b(t[1]).isnotnull(), t[2])
+    if k == "not":
+        return _al(~b(t[1]), t[2])
+    if k == "all":
+        return _al(b(t[1]).all_(), t[2])
+    return None
+
+
+def build(t, ops=False):
     import pypika.terms as T
     import pypika.enums as E
     from pypika import Query, Table
     from decimal import Decimal
     k = t[0]
+    if ops:
+        o = _build_ops(t)
+        if o is not None:
+            return o
+        sub = lambda x: build(x, ops=True)   # noqa: E731
+    else:
+        sub = build
     if k == "field":
         return T.Field(t[1], alias=t[3], table=mk_table(t[2]))
     if k == "star":
@@ -70,47 +129,47 @@ def build(t):
     if k == "param":
         return T.Parameter(t[1])
     if k == "neg":
-        return T.Negative(build(t[1]))
+        return T.Negative(sub(t[1]))
     if k == "arith":
-        return T.ArithmeticExpression(getattr(E.Arithmetic, t[1]), build(t[2]), build(t[3]), alias=t[4])
+        return T.ArithmeticExpression(getattr(E.Arithmetic, t[1]), sub(t[2]), sub(t[3]), alias=t[4])
     if k == "basic":
         cls = E.Equality if t[1] in EQUALITY else E.Matching
-        return T.BasicCriterion(getattr(cls, t[1]), build(t[2]), build(t[3]), alias=t[4])
+        return T.BasicCriterion(getattr(cls, t[1]), sub(t[2]), sub(t[3]), alias=t[4])
     if k == "cplx":
-        return T.ComplexCriterion(getattr(E.Boolean, t[1] + "_"), build(t[2]), build(t[3]), alias=t[4])
+        return T.ComplexCriterion(getattr(E.Boolean, t[1] + "_"), sub(t[2]), sub(t[3]), alias=t[4])
     if k == "in":
-        c = T.ContainsCriterion(build(t[1]), build(t[2]), alias=t[4])
+        c = T.ContainsCriterion(sub(t[1]), sub(t[2]), alias=t[4])
         return c.negate() if t[3] else c
     if k == "between":
-        return T.BetweenCriterion(build(t[1]), build(t[2]), build(t[3]), alias=t[4])
+        return T.BetweenCriterion(sub(t[1]), sub(t[2]), sub(t[3]), alias=t[4])
     if k == "bitand":
-        return T.BitwiseAndCriterion(build(t[1]), T.Term.wrap_constant(int(t[2])), alias=t[3])
+        return T.BitwiseAndCriterion(sub(t[1]), T.Term.wrap_constant(int(t[2])), alias=t[3])
     if k == "isnull":
-        return T.NullCriterion(build(t[1]), alias=t[2])
+        return T.NullCriterion(sub(t[1]), alias=t[2])
     if k == "notnull":
-        return T.NotNullCriterion(build(t[1]), alias=t[2])
+        return T.NotNullCriterion(sub(t[1]), alias=t[2])
     if k == "not":
-        return T.Not(build(t[1]), alias=t[2])
+        return T.Not(sub(t[1]), alias=t[2])
     if k == "all":
-        return T.All(build(t[1]), alias=t[2])
+        return T.All(sub(t[1]), alias=t[2])
     if k == "empty":
         return T.EmptyCriterion()
     if k == "case":
         c = T.Case(alias=t[3])
         for cr, v in t[1]:
-            c = c.when(build(cr), build(v))
+            c = c.when(sub(cr), sub(v))
         if t[2] is not None:
-            c = c.else_(build(t[2]))
+            c = c.else_(sub(t[2]))
         return c
     if k == "func":
-        return T.Function(t[1], *[build(a) for a in t[2]], alias=t[3])
+        return T.Function(t[1], *[sub(a) for a in t[2]], alias=t[3])
     if k == "cast":
         from pypika.functions import Cast
-        return Cast(build(t[1]), t[2], alias=t[3])
+        return Cast(sub(t[1]), t[2], alias=t[3])
     if k == "tuple":
-        return _al(T.Tuple(*[build(a) for a in t[1]]), t[2])
+        return _al(T.Tuple(*[sub(a) for a in t[1]]), t[2])
     if k == "array":
-        return _al(T.Array(*[build(a) for a in t[1]]), t[2])
+        return _al(T.Array(*[sub(a) for a in t[1]]), t[2])
     if k == "sub":
         q = Query.from_(Table("u")).select("x")
         return _al(q, t[1])
@@ -240,9 +299,9 @@ def gen_ctx(rng):
     return c
 
 
-def render_impl(t, c):
+def render_impl(t, c, ops=False):
     try:
-        obj = build(t)
+        obj = build(t, ops=ops)
         return obj.get_sql(**ctx_kwargs(c))
     except Exception as e:  # noqa
         return "!" + type(e).__name__
